@@ -147,6 +147,34 @@ def regression_replays(prop):
     return n, bad
 
 
+def core_cells(prop, monitors):
+    """Quick tier: a small data-derived set of scenarios from the OTHER pool properties' grids (props/core_cells.json:
+    a greedy cover, by small cells, of the histories that exposed the independently seeded changes), run with this
+    property's monitors."""
+    path = os.path.join(VERIF, "props", "core_cells.json")
+    if not os.path.exists(path):
+        return []
+    with open(path) as f:
+        wanted = json.load(f)
+    out = []
+    cache = {}
+    seen = set()
+    for other_id, name in wanted:
+        if other_id == prop or other_id not in CROSS_PROPS:
+            continue
+        if other_id not in cache:
+            other = importlib.import_module(f"props.{other_id.lower()}")
+            cache[other_id] = {c["name"]: c for c in other.cells("quick")}
+        c = cache[other_id].get(name)
+        if c is not None and c.get("world", "pool") == "pool":
+            key = json.dumps(c["scen"], sort_keys=True)
+            if key in seen:
+                continue
+            seen.add(key)
+            out.append(dict(c, monitors=list(monitors), name=f"[core {other_id}] " + name))
+    return out
+
+
 CROSS_PROPS = ["C01", "C02", "C03", "C04", "C05", "C07", "C08", "C10", "C11", "C12", "C13", "C14", "C15"]
 
 
@@ -168,6 +196,8 @@ def run_property(prop, tier, seed, jobs=None, only=None, budget=None, grid=None,
             other = importlib.import_module(f"props.{other_id.lower()}")
             cells += [dict(c, monitors=list(own), name=f"[{other_id}] " + c["name"]) for c in other.cells("quick")
                       if c.get("world", "pool") == "pool"]
+    if tier == "quick" and not grid and prop in CROSS_PROPS and getattr(mod, "CROSS", True):
+        cells += core_cells(prop, getattr(mod, "MON", [prop]))
     if only:
         cells = [c for c in cells if only in c["name"]]
     budget = budget or getattr(mod, "BUDGET", {}).get(tier, 600 if tier == "quick" else 3600)
@@ -317,8 +347,9 @@ def run_property(prop, tier, seed, jobs=None, only=None, budget=None, grid=None,
         "wall_s": round(wall, 2),
         "violations": n_viol + len(regr_bad),
     }
-    os.makedirs(os.path.join(VERIF, "evidence"), exist_ok=True)
-    with open(os.path.join(VERIF, "evidence", f"{prop}.json"), "w") as f:
+    evdir = os.environ.get("VERIF_EVIDENCE_DIR") or os.path.join(VERIF, "evidence")
+    os.makedirs(evdir, exist_ok=True)
+    with open(os.path.join(evdir, f"{prop}.json"), "w") as f:
         json.dump(evidence, f, indent=1, default=str)
     print(f"[{prop}] tier={tier} seed={seed} cells={len(cellrows)} states={tot['states']} transitions={tot['transitions']} "
           f"executions={tot['executions']} terminal_observations={obs} max_depth={maxdepth} wall={wall:.1f}s "
